@@ -165,6 +165,7 @@ func (s *natSys) liveByExt(ext string, now time.Duration) (*natMapping, int) {
 }
 
 func (s *natSys) Apply(op string) (obs, sig, msg string) {
+	defer panicAsViolation(op, &sig, &msg)
 	if s.lastOp != nil {
 		*s.lastOp = op
 	}
@@ -501,11 +502,13 @@ func runNATBody(mode, tier string, shard, shards int, rep *SeqReport, lastOp, cu
 		rep.family("table-bfs", r.transitions)
 	}
 	// deep starts: the dynamic port range (16384 ports) nearly / exactly / over full, live and expired
+	// (one with mapping == filtering behaviour, one where they differ: the table keys of the two directions then differ)
 	deepCfgs := []natCfg{{mapping: vnet.EndpointIndependent, filtering: vnet.EndpointIndependent, lifetime: 100 * time.Millisecond},
-		{mapping: vnet.EndpointAddrPortDependent, filtering: vnet.EndpointAddrPortDependent}}
+		{mapping: vnet.EndpointIndependent, filtering: vnet.EndpointAddrPortDependent, lifetime: 100 * time.Millisecond}}
 	if thorough {
 		deepCfgs = append(deepCfgs, natCfg{mapping: vnet.EndpointAddrDependent, filtering: vnet.EndpointAddrDependent},
-			natCfg{mapping: vnet.EndpointIndependent, filtering: vnet.EndpointAddrPortDependent, lifetime: 100 * time.Millisecond})
+			natCfg{mapping: vnet.EndpointAddrPortDependent, filtering: vnet.EndpointAddrPortDependent},
+			natCfg{mapping: vnet.EndpointAddrPortDependent, filtering: vnet.EndpointIndependent, lifetime: 100 * time.Millisecond})
 	}
 	for _, cfg := range deepCfgs {
 		ns := []int{16383, 16384}
